@@ -190,10 +190,21 @@ func (p *c11) build(c fw.Case, r *fw.Rec) pairBuild {
 	var ref strings.Builder
 	ref.WriteString("package main\n\nimport (\n\t\"fmt\"\n\t\"strconv\"\n)\n\nvar _ = strconv.Itoa\n\n")
 	var mainBody strings.Builder
-	for _, cl := range classes {
+	for cix, cl := range classes {
 		var gox strings.Builder
 		if strings.Contains(cl.gox.String(), "strconv.") {
 			gox.WriteString("import \"strconv\"\n\n")
+		}
+		// declarations may precede the var block: it is still the class's field list
+		switch (c.Idx + cix) % 3 {
+		case 1:
+			fmt.Fprintf(&gox, "const lim%s = 3\n\n", cl.name)
+			fmt.Fprintf(&ref, "const lim%s = 3\n\n", cl.name)
+			r.Cover("class-file:const-before-var-block")
+		case 2:
+			fmt.Fprintf(&gox, "type aux%s int\n\n", cl.name)
+			fmt.Fprintf(&ref, "type aux%s int\n\n", cl.name)
+			r.Cover("class-file:type-before-var-block")
 		}
 		gox.WriteString("var (\n")
 		fmt.Fprintf(&ref, "type %s struct {\n", cl.name)
